@@ -19,7 +19,7 @@ FIELDS = [['matches'], ['matches', 0], ['matches', 0, 'offset'], ['matches', 0, 
           ['matches', 0, 'rule', 'urls'], ['matches', 0, 'rule', 'urls', 0], ['matches', 0, 'rule', 'urls', 0, 'value']]
 TYPES = [None, True, 'x', 3, 1.5, [], {}, [1], {'a': 1}]
 # perturbations of string values: line breaks, markup, an unpaired surrogate (valid JSON "\\ud800"), empty, long
-STRINGS = ['a\nb', 'a\r\nb\n', '<b>"&', '\ud800', 'x\udfffy', '', 'Ä' * 300, 'a\tb', '\x00', '\u2028']
+STRINGS = ['a\nb', 'a\r\nb\n', '<b>"&', 'http://x/<br>\ny', 'u"><i>x', '\ud800', 'x\udfffy', '', 'Ä' * 300, 'a\tb', '\x00', '\u2028']
 STRING_FIELDS = [['matches', 0, 'message'], ['matches', 0, 'context', 'text'], ['matches', 0, 'replacements', 0, 'value'],
                  ['matches', 0, 'rule', 'id'], ['matches', 0, 'rule', 'subId'], ['matches', 0, 'rule', 'category', 'name'],
                  ['matches', 0, 'rule', 'urls', 0, 'value']]
@@ -29,7 +29,10 @@ def gen_cases(ctx):
     rng = ctx.rng
     cases = []
     def add(doc, mode, spec, kind):
-        cases.append({'files': {'d.tex': doc}, 'main': ['d.tex'], 'args': ['--output', mode], 'spec': spec, 'kind': kind, 'doc': doc, 'mode': mode})
+        args = ['--output', mode]
+        if mode == 'html' and rng.random() < 0.5:
+            args.append('--link')          # the html report then also uses rule.urls
+        cases.append({'files': {'d.tex': doc}, 'main': ['d.tex'], 'args': args, 'spec': spec, 'kind': kind, 'doc': doc, 'mode': mode})
     # all in-range (offset, length) pairs incl. first/last character and zero-length matches (sampled in the quick tier)
     for doc in DOCS:
         pairs = [(0.0, 0), (0.0, 1), (0.999, 0), (0.999, 1), (0.5, 'toend'), (0.0, 'toend')]
@@ -64,6 +67,11 @@ def gen_cases(ctx):
             for mode in MODES:
                 if ctx.tier == 'thorough' or rng.random() < 0.5:
                     add(DOCS[2], mode, {'frac_spans': [(0.3, 2)], 'mutations': [{'op': 'set', 'path': path, 'value': val}]}, 'mutate:string')
+    # the html report with --link uses the URL of the rule
+    for val in STRINGS:
+        cases.append({'files': {'d.tex': DOCS[0]}, 'main': ['d.tex'], 'args': ['--output', 'html', '--link'],
+                      'spec': {'frac_spans': [(0.3, 2)], 'mutations': [{'op': 'set', 'path': ['matches', 0, 'rule', 'urls', 0, 'value'], 'value': val}]},
+                      'kind': 'mutate:url', 'doc': DOCS[0], 'mode': 'html'})
     # byte truncation inside a multi-byte character (the answer is sent as UTF-8, not ASCII-escaped)
     for mode in MODES:
         for k in range(ctx.scale(6, 60)):
@@ -157,7 +165,7 @@ def run(ctx):
             if nonmonotonic_class(c) and any(k['id'] == 'nonmonotonic-map-length' for k in ctx.known):
                 ctx.known_hits.setdefault('nonmonotonic-map-length', {'what': next(k['line'] for k in ctx.known if k['id'] == 'nonmonotonic-map-length'), 'count': 0})['count'] += 1
                 continue
-            ctx.violation(fails[0], doc=c['doc'], mode=c['mode'], spec=c['spec'], stderr=r['stderr'][-300:])
+            ctx.violation(fails[0], doc=c['doc'], mode=c['mode'], spec=c['spec'], extra_args=c['args'][2:], stderr=r['stderr'][-300:])
         if len(ctx.samples) < 4 and c['kind'] != 'inrange':
             ctx.sample({'mode': c['mode'], 'spec': c['spec'], 'rc': r['rc'], 'stderr': r['stderr'][-120:]})
     import corr_shell
@@ -167,7 +175,7 @@ def nonmonotonic_class(c):
     return False
 
 def judge_witness(w):
-    c = {'files': {'d.tex': w['doc']}, 'main': ['d.tex'], 'args': ['--output', w['mode']], 'spec': w['spec'], 'doc': w['doc'], 'mode': w['mode']}
+    c = {'files': {'d.tex': w['doc']}, 'main': ['d.tex'], 'args': ['--output', w['mode']] + list(w.get('extra_args') or []), 'spec': w['spec'], 'doc': w['doc'], 'mode': w['mode']}
     return judge(c, shellrun.run_shell(c))
 
 def replay(data):
